@@ -216,7 +216,9 @@ let rec dump_tree (b : Buffer.t) (t : tree) : unit =
   | TInt z -> Buffer.add_string b ("I" ^ string_of_int (int_of_z z))
   | TStr s -> Buffer.add_string b ("S" ^ hex_of_string (string_of_bytes s))
   | TList l -> Buffer.add_char b '['; List.iteri (fun i x -> if i > 0 then Buffer.add_char b ' '; dump_tree b x) l; Buffer.add_char b ']'
-  | TTok _ -> Buffer.add_string b "(tok)"
+  | TTok (k, r, a, p, e, _) ->
+    let hx s = if s = "" then "-" else hex_of_string s in
+    Buffer.add_string b (Printf.sprintf "(tok %s %s %s P%d P%d)" (hx (string_of_bytes k)) (hx (string_of_bytes r)) (hx (string_of_bytes a)) (int_of_z p) (int_of_z e))
   | TNode (ty, fs) ->
     Buffer.add_char b '('; Buffer.add_string b (string_of_coq ty);
     List.iter (fun x -> Buffer.add_char b ' '; dump_tree b x) fs; Buffer.add_char b ')'
@@ -273,6 +275,24 @@ let type_model out =
        | Err p -> Printf.fprintf out "%s => ERR %d\n" hex (int_of_z p)
        | Unsup -> Printf.fprintf out "%s => UNSUP\n" hex
        | Fuel -> Printf.fprintf out "%s => FUEL\n" hex)
+    | _ -> ()
+  done with End_of_file -> ()
+
+(* type-recover: the total model of ParseType (Parse/TypeRecover.v): tree with Bad nodes, positions of all errors *)
+let type_recover out =
+  try while true do
+    let line = input_line stdin in
+    match String.split_on_char ' ' line with
+    | [hex; "=>"; "LEXERR"] -> Printf.fprintf out "%s => LEXERR\n" hex
+    | [hex; "=>"; toks] ->
+      let ts = List.map parse_tok (List.filter (fun x -> x <> "") (String.split_on_char ';' toks)) in
+      (match parse_typeR ts with
+       | Some (t, errs) ->
+         let b = Buffer.create 256 in
+         dump_tree b (rty_tree t);
+         Printf.fprintf out "%s => %d [%s] %d %s\n" hex (List.length errs) (String.concat "," (List.map (fun z -> string_of_int (int_of_z z)) errs))
+           (int_of_nat (bads t)) (Buffer.contents b)
+       | None -> Printf.fprintf out "%s => FUEL\n" hex)
     | _ -> ()
   done with End_of_file -> ()
 
@@ -399,5 +419,6 @@ let run (args : string list) : bool =
    | ["bad-model"] -> bad_model out; true
    | ["expr-c01"] -> expr_c01 out; true
    | ["type-model"] -> type_model out; true
+   | ["type-recover"] -> type_recover out; true
    | ["tree-walkmany"] -> tree_walk out 0 0 true; true
    | _ -> false)
